@@ -905,9 +905,17 @@ def build_fps(spec, cert, other_cert):
     return out
 
 
-def make_rtp(seq, payload, ssrc, pt=0):
+# payload types exercised on the SRTP path, with and without the marker bit; 64..80 with the marker set
+# are demultiplexed as RTCP by design (RFC 5761) and are therefore not used
+RTP_PTS = [0, 8, 63, 81, 90, 95, 96, 127]
+
+
+def make_rtp(seq, payload, ssrc, pt=None):
     from aiortc.rtp import RtpPacket
-    p = RtpPacket(payload_type=pt, sequence_number=seq & 0xFFFF, timestamp=seq * 160, ssrc=ssrc)
+    if pt is None:
+        pt = RTP_PTS[seq % len(RTP_PTS)]
+    marker = (seq // len(RTP_PTS)) % 2
+    p = RtpPacket(payload_type=pt, marker=marker, sequence_number=seq & 0xFFFF, timestamp=seq * 160, ssrc=ssrc)
     p.payload = payload
     return p.serialize()
 
@@ -947,7 +955,7 @@ async def _run_pair(case):
         # each side's receiver listens for the peer's SSRC
         peer = "B" if s == "A" else "A"
         t[s]._register_rtp_receiver(rr[s], RTCRtpReceiveParameters(
-            codecs=[RTCRtpCodecParameters(mimeType="audio/PCMU", clockRate=8000, payloadType=0)],
+            codecs=[RTCRtpCodecParameters(mimeType="audio/PCMU", clockRate=8000, payloadType=pt) for pt in RTP_PTS],
             encodings=[RTCRtpDecodingParameters(ssrc=SSRC[peer], payloadType=0)]))
     fps = {"A": build_fps(case["fpA"], cert["B"], certs[2]), "B": build_fps(case["fpB"], cert["A"], certs[2])}
 
